@@ -67,6 +67,16 @@ def run(tier, argv):
     for m in vlib.read_ndjson(rout):
         bad.append({"what": m["what"], "op": "schema scanner" if m["what"] == "robust" else "schema." + m["want"], "input": bytes(m["bytes"]).decode("latin-1"), "kind": m["got"].get("kind"),
                     "pos": m["got"].get("pos"), "srclen": len(m["bytes"]), "file": "s", "msg": (m["got"].get("msg") or m["got"].get("panic") or "")[:300]})
+    gpe, ge = jsongraph.export_enum_graph(work, rep, "r")
+    eout = work.path("erobust.ndjson")
+    p = vlib.run_harness(hbin, ["c05graph", "-graph", gpe, "-out", eout, "-sut", "enum", "-robust"], timeout=3000)
+    if p.returncode != 0:
+        raise vlib.Infra("c05graph -robust (enum) failed: " + p.stderr.decode()[-2000:])
+    rs2 = semcommon.summary_of(p.stderr)
+    rep.notes["enum_cover"] = {k: rs2[k] for k in ("states", "transitions", "tests", "mismatches")}
+    for m in vlib.read_ndjson(eout):
+        bad.append({"what": m["what"], "op": "enum.Check" if m["what"] == "robust" else "enum." + m["want"], "input": bytes(m["bytes"]).decode("latin-1"), "kind": m["got"].get("kind"),
+                    "pos": m["got"].get("pos"), "srclen": len(m["bytes"]), "file": "e", "msg": (m["got"].get("msg") or m["got"].get("panic") or "")[:300]})
     ops = {}
     for e in lines:
         k = e["op"] + ":" + e["kind"]
@@ -74,7 +84,7 @@ def run(tier, argv):
     rep.notes["outcomes"] = ops
     for e in lines[:: max(1, len(lines) // 6)]:
         rep.sample({"op": e["op"], "input": e["input"][:60], "kind": e["kind"], "code": e["code"], "pos": e["pos"]})
-    rep.cov["evaluations"] = len(lines) + rs["tests"]
+    rep.cov["evaluations"] = len(lines) + rs["tests"] + rs2["tests"]
     rep.cov["distinct_nontrivial"] = s["inputs"]
     rep.cov["traces_validated_against_impl"] = len(lines)
     rep.cov["rule"] = ("%d distinct byte strings (prefixes of the repository's testdata files, fixed cut-off witnesses, byte-level mutations of generated schemas) x 26 public "
